@@ -514,9 +514,10 @@ class ISD(model.Document):
     if isinstance(element, model.Text):
       isd_element.set_text(element.get_text())
 
-    # apply animation
+    # apply animation, except to br elements, to which no style property applies and which do not
+    # receive the inherited or initial values that computing a style property can depend on
 
-    for anim_step in element.iter_animation_steps():
+    for anim_step in (element.iter_animation_steps() if not isinstance(element, model.Br) else ()):
 
       anim_begin_time, anim_end_time = ISD._make_absolute(
         anim_step.begin,
@@ -536,7 +537,7 @@ class ISD(model.Document):
 
     # copy specified styles
 
-    for spec_style_prop in element.iter_styles():
+    for spec_style_prop in (element.iter_styles() if not isinstance(element, model.Br) else ()):
 
       if isd_element.has_style(spec_style_prop):
         # skip if the style has already been set
